@@ -265,8 +265,11 @@ def translate_pattern(pattern: str, flags: int = 0, xsd_version: str = '1.0',
                 else:
                     regex.append(p_shortcut_group)
 
-            else:
+            elif pattern[pos] in 'nrt\\|.-^?*+{}()[]$dDsSwW':
                 regex.append('\\%s' % pattern[pos])
+            else:
+                msg = "invalid escape sequence '\\{}' at position {}: {!r}"
+                raise RegexError(msg.format(pattern[pos], pos - 1, pattern))
         else:
             regex.append(ch)
         pos += 1
